@@ -214,7 +214,7 @@ func (w *World) verifyFunc(fi *FuncInfo, props []string) (res *FuncResult) {
 			for _, k := range sortedKeys(c.heapSorts()) {
 				srt := c.heapSorts()[k]
 				he, hx := fx.entry.heap(k, srt), exit.heap(k, srt)
-				if he == hx || k == "NC" || k == "CLB" {
+				if he == hx || k == "NC" || k == "CLB" || k == "CNT" || k == "CNC" {
 					continue
 				}
 				// writes to objects allocated by this activation are invisible to the caller: every undeclared heap
